@@ -364,10 +364,22 @@ def dyndep_cycle_family(ctx, rng, n):
         side = St("side", ["side"], ins=["x.c"], oins=["dd"] if rng.random() < 0.5 else [], iins=["out"] if extra_consumer else [])
         scan = St("scan", ["dd"], ins=["out.src"], kind="scan", serves=[["out", "out.src"]])
         out = St("out", ["out"], ins=["out.src"], oins=["dd"], dd=True, dyndep="dd")
-        x = St("x", ["x"], ins=["x.c", "out"])
+        # x needs out through an input of any kind - order-only too: the way back to out closes a cycle whatever the kind of its
+        # links - directly or with a statement in between
+        x = St("x", ["x"], ins=["x.c"])
+        link = rng.choice(("ins", "ins", "iins", "oins", "oins"))
+        mid = None
+        if rng.random() < 0.3:
+            mid = St("mid", ["mid"], ins=["x.c"])
+            mid[rng.choice(("ins", "iins", "oins"))].append("out")
+            x[link].append("mid")
+        else:
+            x[link].append("out")
         order = [side, scan, out, x] if rng.random() < 0.5 else [scan, out, x, side]
         if rng.random() < 0.3:
             order = [scan, x, out, side]
+        if mid:
+            order.insert(rng.randint(0, len(order)), mid)
         sc = {"id": "C17-D-%d-%d" % (ctx.seed, k), "pools": {}, "defaults": [], "sources": srcs, "stmts": order}
         step = {"op": "build", "targets": rng.choice(([], ["x"], ["out"], ["x", "side"])), "j": rng.choice((1, 2, 3)), "k": 1,
                 "sched": {"mode": "prng", "seed": k}}
